@@ -29,6 +29,16 @@ type c10Eval struct {
 	P   []string `json:"p"`
 }
 
+// c10EvalHist: evaluation against a document with a history (domhist.go).  "For all documents d" includes the
+// documents a program has already evaluated pointers against and edited in place since: every pointer is
+// evaluated before every edit and at the end, against the reference evaluation on the content the document
+// must hold at that moment and against a freshly built document of that content.
+type c10EvalHist struct {
+	Doc   W          `json:"doc"`
+	Edits []dhEdit   `json:"edits"`
+	Ptrs  [][]string `json:"ptrs"`
+}
+
 type c10Prop struct {
 	Raw string `json:"raw"`
 }
@@ -40,7 +50,9 @@ func init() {
 		Rule: "toks: every token list over {'/','~','0','1','a','b','é','𝄞'} incl. empty tokens with (#tokens + #runes) <= 5 (quick) / 7 (thorough), plus random longer lists over a wider rune pool; " +
 			"str: every string over the same alphabet up to length 4/6 (valid or not), every RFC 6901 grammar string up to length 6/8, random longer ones; " +
 			"eval: generated documents (member names include '0','1','10','a/b','~','é') with pointers drawn from existing locations, their neighbours (other member, index one past / far past), " +
-			"non-existent ones and a malformed stream (non-numeric, negative, empty tokens against lists; tokens below leaves); prop: dotted property paths with index groups through xform.PointerFromPropPathString. " +
+			"non-existent ones and a malformed stream (non-numeric, negative, empty tokens against lists; tokens below leaves); evalhist: such a document is given a history of 1-6 in-place edits " +
+			"(AddValue / Remove / AddContainer / AddList / Set / MustSet / Append / Clear through nested builders, Lookup or the root's path API, consecutive edits differing in operation or route), and before every edit and at the end a fixed set of pointers " +
+			"(locations of every intermediate content and their neighbours) plus every location of the current content is evaluated; prop: dotted property paths with index groups through xform.PointerFromPropPathString. " +
 			"Non-trivial: toks/str cases containing '~' or '/' inside a token or an empty token or a multi-byte rune; eval cases whose pointer has >= 2 tokens or meets a list. distinct = distinct canonical case JSON.",
 		Assumptions: []string{"strings are valid UTF-8 (Go's []rune conversion maps invalid bytes to U+FFFD; not generated)",
 			"evaluation is compared on tokens that are member names, canonical array indices, or tokens strconv.Atoi rejects / reads as negative; non-canonical numerals (01, +1, -0) against lists are outside the property and not generated",
@@ -362,6 +374,40 @@ func c10Run(c *Ctx) {
 			c.Do("eval", c10Eval{Doc: doc, P: c10GenPointer(r, g, doc)})
 		}
 	}
+	// --- evaluation against documents with a history
+	gh := c10EvalGen()
+	gh.ListMax = 5
+	for i := 0; i < c.N(400); i++ {
+		c.Tick()
+		doc := gh.Doc(r)
+		h := c10EvalHist{Doc: doc, Edits: dhGenEdits(r, gh, doc, 1+r.Intn(6))}
+		cur := W(doc)
+		for k := 0; k <= len(h.Edits); k++ {
+			for j := 0; j < 2; j++ {
+				if p := c10GenPointer(r, gh, cur); c10PtrInDomain(p) {
+					h.Ptrs = append(h.Ptrs, p)
+				}
+			}
+			if k < len(h.Edits) {
+				// aim at the edited position itself
+				at := h.Edits[k].At
+				p := make([]string, 0, len(at)+1)
+				for _, s := range at {
+					p = append(p, fmt.Sprint(s))
+				}
+				if dhIsListOp(h.Edits[k].Op) {
+					p = append(p, fmt.Sprint(h.Edits[k].Idx))
+				} else {
+					p = append(p, h.Edits[k].Key)
+				}
+				if c10PtrInDomain(p) {
+					h.Ptrs = append(h.Ptrs, p)
+				}
+				cur, _ = dhApplyRef(cur, h.Edits[k])
+			}
+		}
+		c.Do("evalhist", h)
+	}
 	// --- xform: property path -> pointer
 	keys := []string{"a", "b", "k1", "x-y", "z_9", "0", "12"}
 	for i := 0; i < c.N(300); i++ {
@@ -493,6 +539,22 @@ func c10Eval_(c *Ctx, kind string, raw []byte) {
 			c.Nontrivial()
 		}
 		must, _ := guard(func() { _ = patch.MustParsePath(k.S) })
+		if perr == nil {
+			// repeated use: what the first call returned is the caller's; appending to it (token slices may have spare
+			// capacity) and parsing again neither changes the first result nor shows in the second
+			o, t := guard(func() {
+				want := c10ToksOf(p)
+				p1x := append(p, "x1")
+				p2, err2 := patch.ParsePath(k.S)
+				p2y := append(p2, "y2", "y3")
+				p3 := patch.MustParsePath(k.S)
+				_ = append(p3, "z")
+				c.Direct("parse-twice-independent-results", err2 == nil && c10SameToks(c10ToksOf(p2), want) && c10SameToks(c10ToksOf(p), want) && c10SameToks(c10ToksOf(p3), want) &&
+					string(p1x[len(p1x)-1]) == "x1" && string(p2y[len(p2y)-2]) == "y2" && c10SameToks(c10ToksOf(p1x[:len(want)]), want) && p.String() == restr && p2.String() == restr,
+					map[string]any{"first": c10ToksOf(p), "second": c10ToksOf(p2), "third": c10ToksOf(p3)})
+			})
+			c.Direct("no-panic(repeated parse)", o == "ok", t)
+		}
 		if gram {
 			c.Direct("string-of-parse-is-identity", perr == nil && restr == k.S, map[string]any{"parsed": c10OptToks(p, perr), "string": restr})
 		}
@@ -535,6 +597,32 @@ func c10Eval_(c *Ctx, kind string, raw []byte) {
 			if n != nil {
 				lastIsNode = len(tr) > 0 && tr[len(tr)-1] == n
 			}
+			// repeated use: the trail of the first call belongs to the caller; a second evaluation (through the sealed
+			// view, an equivalent entry point) visits the same node objects, whatever was done with the first trail
+			keep := append(dom.NodeList{}, tr...)
+			for i := range tr {
+				tr[i] = scribbleLeaf
+			}
+			_ = append(tr, scribbleLeaf)
+			tr2, n2 := c10PathOf(k.P).Eval(d.Seal())
+			sameObj := func(a, b dom.Node) bool { // a sealed view and its builder are one object
+				return (a == nil && b == nil) || (a != nil && b != nil && nodeID(a) == nodeID(b))
+			}
+			same := sameObj(n2, n) && len(tr2) == len(keep)
+			for i := 0; same && i < len(keep); i++ {
+				same = sameObj(keep[i], tr2[i])
+			}
+			c.Direct("eval-twice-same-nodes", same, map[string]any{"first": trail, "second_len": len(tr2)})
+			// the same content built so that structurally equal subtrees are ONE node object (a block attached at several
+			// positions): evaluation is about positions, the result is the same
+			dd := heapBuildDag(k.Doc, map[string]dom.Node{}).(dom.Container)
+			tr3, n3 := c10PathOf(k.P).Eval(dd)
+			trail3 := make([]any, len(tr3))
+			for i, e := range tr3 {
+				trail3[i] = nodeWire(e)
+			}
+			c.Direct("eval-same-on-document-with-shared-node-objects", canon(nodeWire(n3)) == canon(node) && canon(trail3) == canon(trail),
+				map[string]any{"distinct objects": node, "shared objects": nodeWire(n3)})
 		})
 		if !c.Direct("eval-no-panic", out == "ok", txt) {
 			return
@@ -580,6 +668,8 @@ func c10Eval_(c *Ctx, kind string, raw []byte) {
 		}
 		m := c.Model("eval", map[string]any{"doc": k.Doc, "p": k.P})
 		c.Corr("eval", map[string]any{"node": node, "trail": trail}, c10Pick(m, "node", "trail"))
+	case "evalhist":
+		c10EvalHistory(c, raw)
 	case "prop":
 		var k c10Prop
 		if err := json.Unmarshal(raw, &k); err != nil {
@@ -659,3 +749,129 @@ func c10Shrink(kind string, raw []byte) [][]byte {
 }
 
 var _ dom.Node // keep the import when the file is trimmed
+
+func c10PtrInDomain(p []string) bool {
+	for _, t := range p {
+		if !c10TokInDomain(t) {
+			return false
+		}
+	}
+	return true
+}
+
+// c10EvalHistory: see c10EvalHist.
+func c10EvalHistory(c *Ctx, raw []byte) {
+	var k c10EvalHist
+	if err := json.Unmarshal(raw, &k); err != nil {
+		panic(err)
+	}
+	if wireKind(k.Doc) != "cont" || !c05KeysOK(k.Doc) {
+		return
+	}
+	for _, e := range k.Edits {
+		if e.V != nil && !c05KeysOK(e.V) {
+			return
+		}
+	}
+	c.Nontrivial()
+	executed := 0
+	out, txt := guard(func() {
+		d := dhNew(k.Doc, nil)
+		evalAll := func(step int) bool {
+			ptrs := [][]string{}
+			for _, p := range k.Ptrs {
+				if c10PtrInDomain(p) {
+					ptrs = append(ptrs, p)
+				}
+			}
+			var locs [][]string
+			c10Locations(d.exp, nil, &locs)
+			if len(locs) > 30 {
+				locs = locs[:30]
+			}
+			nFull := len(ptrs)
+			for _, p := range locs {
+				if c10PtrInDomain(p) {
+					ptrs = append(ptrs, p)
+				}
+			}
+			fresh := wireContainer(d.exp)
+			for pi, p := range ptrs {
+				tr, n := c10PathOf(p).Eval(d.root)
+				if pi >= nFull {
+					// the locations of the current content: the addressed node only
+					_, refNode, _ := c10RefWalk(d.exp, p)
+					if !c.Direct("evalhist:eval-node-equals-reference", canon(nodeWire(n)) == canon(refNode) && len(tr) > 0 && tr[len(tr)-1] == n,
+						map[string]any{"pointer": p, "after_edits": step, "impl": nodeWire(n), "reference": refNode, "document_must_hold": d.exp}) {
+						return false
+					}
+					continue
+				}
+				ftr, fn := c10PathOf(p).Eval(fresh)
+				refTrail, refNode, ok := c10RefWalk(d.exp, p)
+				var want W
+				if ok {
+					want = refNode
+				}
+				trail, ftrail, rt := []any{}, []any{}, []any{}
+				for _, e := range tr {
+					trail = append(trail, nodeWire(e))
+				}
+				for _, e := range ftr {
+					ftrail = append(ftrail, nodeWire(e))
+				}
+				for _, e := range refTrail {
+					rt = append(rt, e)
+				}
+				det := map[string]any{"pointer": p, "after_edits": step, "impl": nodeWire(n), "reference": want, "document_must_hold": d.exp}
+				good := c.Direct("evalhist:eval-node-equals-reference", canon(nodeWire(n)) == canon(want), det)
+				good = c.Direct("evalhist:eval-equals-eval-on-freshly-built-document", canon(nodeWire(n)) == canon(nodeWire(fn)) && canon(trail) == canon(ftrail),
+					map[string]any{"pointer": p, "after_edits": step, "document": nodeWire(n), "fresh": nodeWire(fn), "trail": trail, "fresh_trail": ftrail}) && good
+				if n != nil {
+					good = c.Direct("evalhist:eval-last-trail-element-is-node", len(tr) > 0 && tr[len(tr)-1] == n, det) && good
+				}
+				if len(p) > 0 {
+					good = c.Direct("evalhist:eval-trail-is-nodes-visited", canon(trail) == canon(rt), map[string]any{"pointer": p, "after_edits": step, "impl": trail, "reference": rt}) && good
+				}
+				if !good {
+					return false
+				}
+			}
+			return true
+		}
+		for i := 0; ; i++ {
+			if !evalAll(i) {
+				return
+			}
+			if i >= len(k.Edits) {
+				break
+			}
+			st := d.apply(k.Edits[i])
+			c.Dist("evalhist:edit=" + k.Edits[i].Op + ":" + st)
+			if st == "skip" {
+				continue
+			}
+			executed++
+			if !c.Direct("evalhist:edit-executes", st == "ok", map[string]any{"edit": k.Edits[i], "result": st}) {
+				return
+			}
+		}
+		// the document as a whole is what the reference says (the edits went where they were aimed)
+		dhReport(c, "evalhist:", len(k.Edits), d.reads(dhReadOpts{Light: true}))
+		// the model on the final content, evaluated against the document as it is now
+		for i, p := range k.Ptrs {
+			if i >= 3 || !c10PtrInDomain(p) {
+				continue
+			}
+			tr, n := c10PathOf(p).Eval(d.root)
+			trail := make([]any, len(tr))
+			for j, e := range tr {
+				trail[j] = nodeWire(e)
+			}
+			m := c.Model("eval", map[string]any{"doc": d.exp, "p": p})
+			c.Corr("eval(after history)", map[string]any{"node": nodeWire(n), "trail": trail}, c10Pick(m, "node", "trail"))
+		}
+	})
+	c.Direct("evalhist:no-panic", out == "ok", txt)
+	c.Dist(fmt.Sprintf("evalhist:edits-executed=%d", executed))
+}
